@@ -269,3 +269,18 @@ Proof.
   set (q := (Qnum x * Z.pos (2 ^ k) / Z.pos (Qden x))%Z) in *. set (r := ((Qnum x * Z.pos (2 ^ k)) mod Z.pos (Qden x))%Z) in *.
   rewrite Pos2Z.inj_mul. nia.
 Qed.
+
+(* ------------------------------------------------------------------ the implicit-function rule as linear algebra:
+   if the sensitivities S satisfy H S + B = 0 then for every data shift d the parameter shift S d satisfies H (S d) + B d = 0,
+   row by row (h = row of H, b = row of B) *)
+Theorem implicit_function_rule_row (h : vec) (S : mat) (b : vec) (m : nat) (d : vec) :
+  shape_ok S m -> List.length b = m ->
+  veq (vaddv (map (fun j => dotv h (mcol S j)) (seq 0 m)) b) (repeat 0 m) ->
+  dotv h (mvec S d) + dotv b d == 0.
+Proof.
+  intros Hs Lb E.
+  rewrite <- (gram_row S h m d Hs).
+  assert (L : List.length (map (fun j => dotv h (mcol S j)) (seq 0 m)) = List.length b) by (rewrite map_length, seq_length; auto).
+  rewrite (dotv_comm _ d), (dotv_comm b d), <- (dotv_vaddv_r d _ _ L).
+  rewrite (dotv_veq_r d _ _ E). apply dotv_zeros_r.
+Qed.
